@@ -33,7 +33,8 @@ ASSUMPTIONS = [
     'chunked bodies whose chunk-size line is not hexadecimal - the parser reports INVALID_CHUNK, the component ignores it once the '
     'headers are complete; and a Content-Length of 2**64)',
     'only operators tagged malformed-for-sure forbid a 2xx/3xx answer',
-    'the request handler never fails, so a 4xx/5xx answer means the HTTP component rejected the message itself',
+    'the request handler never fails, so a 4xx/5xx answer means the HTTP component rejected the message itself - except a 500 after the '
+    'response event of an accepted request raised (a value echoed from the request that the header encoding cannot represent)',
     'status line checked against the RFC 7230 grammar by the harness, headers and body by http.client.HTTPResponse',
     'per-connection tables are read through getattr after the disconnect',
 ]
@@ -122,6 +123,10 @@ def operators():
     hd('nul-in-value', False, lambda h: h + [b'X-Nul: a\x00b'])
     hd('non-ascii-value', False, lambda h: h + [b'X-Uni: \xc3\xa9\xff'])
     hd('empty-name', True, lambda h: h + [b': novalue'])
+    # values the server echoes (request cookies come back as Set-Cookie): not representable in the header encoding
+    hd('cookie-non-latin1-escape', False, lambda h: h + [b'Cookie: a="\\u20ac"'])
+    hd('cookie-non-latin1-escape-plain', False, lambda h: h + [b'Cookie: a=\\u20ac; b=ok'])
+    hd('cookie-control-char', False, lambda h: h + [b'Cookie: a="x\\x01y"'])
     # lone surrogates written as escapes (the parser decodes such escapes): in accepted and in rejected lines
     hd('surrogate-escape-in-value', False, lambda h: h + [b'X-Sur: \\ud800'])
     hd('surrogate-escape-no-colon', True, lambda h: h + [b'no colon here \\ud800'])
@@ -309,7 +314,19 @@ def run_input_once(data, cut=None, rest=False, debug=False):
         if debug:
             w.server.display_banner = True     # what a real server has by default: error pages show the traceback
         t0 = time.thread_time()
-        if rest == 'burst' and cut is not None:
+        if rest == 'drop':
+            # the client sends the input and is gone at once: the disconnect is announced in the very next pass, before the events
+            # fired while handling the read have run their course
+            from circuits.net.events import disconnect as _disc_event, read as _read_event
+            w.root.fire(_read_event(sock, data), 'web')
+            w.root.flush()             # (the read is handled while the socket is still open, as with a real server)
+            try:
+                sock.close()
+            except OSError:
+                pass
+            w.root.fire(_disc_event(sock), 'web')
+            w.settle()
+        elif rest == 'burst' and cut is not None:
             # the second read is dispatched in the very next flush pass (what a server whose socket stays readable does:
             # one read event per loop iteration), i.e. before the events fired while handling the first have run their course
             from circuits.net.events import read as _read_event
@@ -330,10 +347,11 @@ def run_input_once(data, cut=None, rest=False, debug=False):
         # "waits for more data" has to mean it: if nothing was said about a WHOLE input, more data (the end of any header
         # section that might still be open, then a complete well-formed request) must get some reaction - a response or a close
         obs['silent_forever'] = False
+        obs['dropped'] = rest == 'drop'
         obs['exceptions'] = list(w.exceptions)
         obs['written_before_follow_up'] = bytes(w.written[sock])
         obs['closed_before_follow_up'] = sock in w.closed
-        if cut is None and not w.written[sock] and sock not in w.closed:
+        if cut is None and rest != 'drop' and not w.written[sock] and sock not in w.closed:
             w.feed(sock, b'\r\n\r\n' + b'GET /follow-up HTTP/1.1\r\nHost: example.test\r\n\r\n' * 2)
             obs['silent_forever'] = not w.written[sock] and sock not in w.closed
             obs['follow_up'] = True
@@ -343,10 +361,11 @@ def run_input_once(data, cut=None, rest=False, debug=False):
         obs['events'] = list(w.events[sock])
         obs['requests'] = len(w.requests)
         obs['crashed'] = w.crashed
-        w.disconnect(sock)
+        if rest != 'drop':          # (drop: the one and only disconnect has been announced already)
+            w.disconnect(sock)
         obs['crashed'] = obs['crashed'] or w.crashed
         res = []
-        for attr in ('_buffers', '_clients'):
+        for attr in ('_buffers', '_clients', '_closing'):
             tab = getattr(w.http, attr, None)
             if tab is not None and sock in tab:
                 res.append(attr)
@@ -369,6 +388,12 @@ def judge(name, data, sure, obs, truncated):
                     % (len(data), obs['cpu'], STALL_CPU_SECONDS)))
     if obs['sentinel'] != 1:
         bad.append(('loop-dead:' + cls, 'a later event was dispatched %d times' % obs['sentinel']))
+    if obs.get('dropped'):
+        # the peer was gone before anything could be answered: only the loop and the absence of retained state are judged
+        if obs['residue']:
+            bad.append(('residue:%s:client-gone-at-once' % '+'.join(obs['residue']), 'the client sent the input and disconnected at once; after '
+                        'everything settled the HTTP component still holds %r for the socket' % (obs['residue'],)))
+        return bad
     if obs.get('exceptions') and not obs['written_before_follow_up'] and not obs['closed_before_follow_up']:
         # a handler raised while this connection's data was being processed and the component said nothing afterwards: that is
         # not "waiting for more data"
@@ -385,7 +410,8 @@ def judge(name, data, sure, obs, truncated):
     for status, headers, body, will_close, version in resps[:1]:
         if sure and not truncated and status < 400:
             bad.append(('accepted-malformed:' + cls, 'malformed input answered with status %d' % status))
-        if status >= 400 and obs['requests']:
+        failed_while_answering = status == 500 and any(x.endswith('(in response)') for x in obs.get('exceptions', ()))
+        if status >= 400 and obs['requests'] and not failed_while_answering:
             bad.append(('request-event-for-rejected-message:' + cls, 'status %d but %d request event(s) were dispatched' % (status, obs['requests'])))
         if will_close and not obs['closed']:
             bad.append(('close-missing:' + cls, 'the response announces that the connection will close (status %d) but no close event followed' % status))
@@ -417,7 +443,7 @@ def _work(part, nparts, payload):
         if idx % nparts != part:
             continue
         cuts = truncations(data) if '+' not in name else []
-        cases = [(None, False), (None, 'debug')] + [(c, False) for c in cuts] + [(c, True) for c in cuts if c < 200] + \
+        cases = [(None, False), (None, 'debug'), (None, 'drop')] + [(c, False) for c in cuts] + [(c, True) for c in cuts if c < 200] + \
             [(c, 'burst') for c in cuts if c < 200]
         for cut, rest in cases:
             debug = rest == 'debug'
